@@ -132,7 +132,53 @@ class XArr:
         self.dom.ctx.assume(prod(newshape) == self.size())
         return XArr(self.dom, newshape, flat=flat, base=self if view else None)
 
+    def sliced(self, idx):
+        """Basic indexing a[idx] with integers and step-1 slices (NumPy: negative values count from the end, slice bounds are clipped,
+        an integer must be in range — recorded as a side condition the contract obliges).  The result is a view."""
+        if not isinstance(idx, tuple):
+            idx = (idx,)
+        if len(idx) > self.ndim:
+            raise Unsupported("too many indices (NumPy raises IndexError; not modelled)")
+        idx = tuple(idx) + (slice(None, None, None),) * (self.ndim - len(idx))
+        plan, shape = [], []
+        for k, (ix, n) in enumerate(zip(idx, self.shape)):
+            if isinstance(ix, slice):
+                if ix.step not in (None, 1):
+                    raise Unsupported("slice step")
+                def norm(v, default, n=n):
+                    if v is None:
+                        return default
+                    v = z3.IntVal(v) if _is_int(v) else v
+                    if not (z3.is_expr(v) and z3.is_int(v)):
+                        raise Unsupported(f"slice bound {v!r}")
+                    return z3.If(v < 0, z3.If(v + n < 0, 0, v + n), z3.If(v > n, n, v))
+                lo, hi = norm(ix.start, z3.IntVal(0)), norm(ix.stop, n)
+                ln = z3.simplify(z3.If(hi - lo < 0, 0, hi - lo))
+                plan.append(("slice", z3.simplify(lo)))
+                shape.append(ln)
+            elif _is_int(ix) or (z3.is_expr(ix) and z3.is_int(ix)):
+                v = z3.IntVal(ix) if _is_int(ix) else ix
+                w = z3.simplify(z3.If(v < 0, v + n, v))
+                self.dom.side_conditions.append(("integer index in range", z3.And(w >= 0, w < n)))
+                plan.append(("int", w))
+            else:
+                raise Unsupported(f"index object {type(ix).__name__} in the index-function domain")
+        src = self
+        if self.flat is not None and self.ndim == 1 and plan[0][0] == "slice":
+            lo = plan[0][1]
+            return XArr(self.dom, shape, flat=lambda k, lo=lo, src=src: src.flat(lo + k), base=self)
+
+        def elem(j, plan=tuple(plan), src=src):
+            it = iter(j)
+            i = [(lo + next(it)) if kind == "slice" else lo for kind, lo in plan]
+            return src.at(i)
+
+        return XArr(self.dom, shape, elem=elem, base=self)
+
     # -- interpreter hooks ---------------------------------------------------------------------
+    def __sym_getitem__(self, interp, idx):
+        return self.sliced(idx)
+
     def __sym_is__(self, interp, other):
         return self is other
 
@@ -212,6 +258,7 @@ class IdxDomain:
         self.dtype_token = Opaque("dtype")
         self.np = _Np(self)
         self.quotients = []  # (q, n) of every `a mod n` formed so far
+        self.side_conditions = []  # (what, formula): conditions under which NumPy accepts an indexing expression; obliged by the contracts
 
     def mod(self, a, n):
         """Python's / NumPy's `a % n` for an extent n: for n > 0 the Euclidean remainder, introduced by witnesses
@@ -325,6 +372,92 @@ class _Np:
             return src.at(i)
 
         return XArr(self._dom, a.shape, elem=elem)
+
+    # ---- joins
+    def np_concatenate(self, arrays, axis=0, out=None, dtype=None, casting="same_kind"):
+        # numpy.concatenate: the pieces laid one after the other along `axis` (axis=None: the flattened pieces one after the other)
+        if out is not None:
+            raise Unsupported("np.concatenate(out=)")
+        pieces = [_arr(a) for a in arrays]
+        if not pieces:
+            raise Unsupported("np.concatenate of nothing (NumPy raises)")
+        dom = self._dom
+        if axis is None:
+            if any(p.flat is None for p in pieces):
+                raise Unsupported("np.concatenate(axis=None) of index-mode arrays")
+            offs = [z3.IntVal(0)]
+            for p in pieces:
+                offs.append(offs[-1] + p.size())
+
+            def flat(k, pieces=tuple(pieces), offs=tuple(offs)):
+                r = pieces[-1].flat(k - offs[-2])
+                for q in range(len(pieces) - 2, -1, -1):
+                    r = z3.If(k < offs[q + 1], pieces[q].flat(k - offs[q]), r)
+                return r
+
+            return XArr(dom, [z3.simplify(offs[-1])], flat=flat)
+        nd = pieces[0].ndim
+        if nd == 0 or any(p.ndim != nd for p in pieces):
+            raise Unsupported("np.concatenate: 0-d or mixed-rank pieces (NumPy raises)")
+        ax = _norm(axis, nd)
+        for p in pieces[1:]:
+            for k in range(nd):
+                if k != ax:
+                    # accepted call: all extents off the axis agree
+                    dom.ctx.assume(p.shape[k] == pieces[0].shape[k])
+        offs = [z3.IntVal(0)]
+        for p in pieces:
+            offs.append(offs[-1] + p.shape[ax])
+
+        def elem(j, pieces=tuple(pieces), offs=tuple(offs), ax=ax):
+            def at(q):
+                i = list(j)
+                i[ax] = j[ax] - offs[q]
+                return pieces[q].at(i)
+
+            r = at(len(pieces) - 1)
+            for q in range(len(pieces) - 2, -1, -1):
+                r = z3.If(j[ax] < offs[q + 1], at(q), r)
+            return r
+
+        shape = list(pieces[0].shape)
+        shape[ax] = z3.simplify(offs[-1])
+        return XArr(dom, shape, elem=elem)
+
+    def np_stack(self, arrays, axis=0, out=None, dtype=None, casting="same_kind"):
+        # numpy.stack: a new axis of length len(arrays) at `axis`; out[.., p, ..] = arrays[p]
+        if out is not None:
+            raise Unsupported("np.stack(out=)")
+        pieces = [_arr(a) for a in arrays]
+        if not pieces:
+            raise Unsupported("np.stack of nothing (NumPy raises)")
+        nd = pieces[0].ndim
+        if any(p.ndim != nd for p in pieces):
+            raise Unsupported("np.stack: mixed-rank pieces (NumPy raises)")
+        ax = _norm(axis, nd + 1)
+        for p in pieces[1:]:
+            for k in range(nd):
+                self._dom.ctx.assume(p.shape[k] == pieces[0].shape[k])
+
+        def elem(j, pieces=tuple(pieces), ax=ax):
+            i = [x for k, x in enumerate(j) if k != ax]
+            r = pieces[-1].at(i)
+            for q in range(len(pieces) - 2, -1, -1):
+                r = z3.If(j[ax] == q, pieces[q].at(i), r)
+            return r
+
+        shape = list(pieces[0].shape)
+        shape.insert(ax, z3.IntVal(len(pieces)))
+        return XArr(self._dom, shape, elem=elem)
+
+    def np_cumsum(self, seq, **kw):
+        if kw or not isinstance(seq, (tuple, list)):
+            raise Unsupported("np.cumsum of anything but a sequence of integers")
+        out, acc = [], 0
+        for v in seq:
+            acc = acc + v
+            out.append(z3.simplify(acc) if z3.is_expr(acc) else acc)
+        return out
 
     # ---- order-preserving routines
     def np_reshape(self, a, newshape=None, shape=None, order="C"):
